@@ -13,14 +13,14 @@ tried = {
  "C13": ["lock release of a failed op tied to the Operation's lifetime", "read-only check placed after graph duplication, outside the rollback", "rollback of the view-children bookkeeping restoring the mutated object", "lingering-base drop moved before the forward call"],
  "C12": ["copy-before-store rule narrowed to `base is grad`", "Tensor.copy() sharing the gradient array", "gru backward writing into the caller's seed", "get-item backward wrapping negative entries of the caller's index array in place"],
  "C14": ["seed stored on L before validation", "out-of-place accumulation returning a NumPy scalar for 0-d", "a Tensor seed skipping the dtype cast", "gru storing X's gradient in the widest dtype"],
- "C06": ["first contribution that is a view copied C-ordered", "pre-clear pull of the view gradient skipped when the view has no own gradient"],
- "C10": ["explicit constant= overriding an out= target's flag", "multi_matmul taking the trailing vector's flag from the first operand"],
- "C11": ["** with 0-d tensor exponent taking the unary shortcut", "rounding/modulo guard checking only the dispatching tensor"],
- "C03": ["weak-scalar dtype memoised on the scalar's value", "** shortcut firing for any one-element exponent array"],
- "C15": ["decorator restoring the setting read at decoration time", "backward() under no_autodiff clearing a constant tensor's graph"],
- "C16": ["sliding_window_view skipping the contiguity copy for strided leading axes", "conv_nd rejecting only when every axis is bad"],
- "C17": ["byte-order-only dtype difference passing through astensor", "copy=False with ndmin>ndim copying"],
- "C18": ["save reading the private gradient slot", "load normalising layout with ascontiguousarray"],
+ "C06": ["first contribution that is a view copied C-ordered", "pre-clear pull of the view gradient skipped when the view has no own gradient", "a view not registered among its base's view children detached when entering a non-view op (two graph epochs)", "gradient accumulation done out of place so NumPy picks the layout"],
+ "C10": ["explicit constant= overriding an out= target's flag", "multi_matmul taking the trailing vector's flag from the first operand", "** shortcut treating a 0-d Tensor exponent as constant", "astype(copy=False, constant=False) returning self"],
+ "C11": ["** with 0-d tensor exponent taking the unary shortcut", "rounding/modulo guard checking only the dispatching tensor", "<= / >= computed as negation of > / < (NaN)", "Tensor.moveaxis swapping source and destination"],
+ "C03": ["weak-scalar dtype memoised on the scalar's value", "** shortcut firing for any one-element exponent array", "BinaryUfunc dropping dtype= when where= is given", "ravel walking memory order (order=K)"],
+ "C15": ["decorator restoring the setting read at decoration time", "backward() under no_autodiff clearing a constant tensor's graph", "internal scope around view-gradient replay setting TRACK_GRAPH to True instead of restoring", "weak-scalar resolution skipped on the untracked path"],
+ "C16": ["sliding_window_view skipping the contiguity copy for strided leading axes", "conv_nd rejecting only when every axis is bad", "max_pool tiling test using x % stride", "conv_nd padding buffer in the filter's dtype"],
+ "C17": ["byte-order-only dtype difference passing through astensor", "copy=False with ndmin>ndim copying", "default copy skipped for buffer-protocol / __array_interface__ inputs", "mg.asarray defaulting to order=C"],
+ "C18": ["save reading the private gradient slot", "load normalising layout with ascontiguousarray", "save deriving the file name with with_suffix", "load restoring the gradient only if grad.size"],
 }.get(pid, [])
 extra = "\nALREADY USED in an earlier round (do NOT repeat these or close variants; pick different code sites and mechanisms):\n" + "\n".join("- " + t for t in tried) + "\n"
 extra += "\nNOTE: other processes use the CPU, so hypothesis-deadline or statistical tests may flake: re-run a failing test alone before blaming your change. Use `--deselect tests/test_version.py::test_version` (it fails under PYTHONPATH on the clean tree).\n"
